@@ -258,7 +258,7 @@ def user_marker_class():
     return _USER_MARKER[0]
 
 HISTORY = not os.environ.get("VERIF_NO_HISTORY")
-DECLARED_COLS = {}  # leaf name -> the relation's own columns, for leaves whose table / payload offers more (sqlprogs' W)
+DECLARED_COLS = {}  # leaf name -> the relation's own columns, for leaves whose table / payload offers more (sqlprogs' Wx)
 CURRENT_DECOYS = {}  # id(decoy LeafRelation) -> object, of the Env that built last (read by pytree)
 
 
@@ -418,7 +418,7 @@ def _sem_seq(node, env, prefer):
     sqlm = getattr(env, "sql_mode", False)
     if op == "leaf":
         t = env.tables[node[1]]
-        if node[1] in DECLARED_COLS and set(t.cols) != set(DECLARED_COLS[node[1]]):
+        if node[1] in DECLARED_COLS and set(t.cols) > set(DECLARED_COLS[node[1]]):
             t = relmodel.project(t, DECLARED_COLS[node[1]])  # the table offers more columns than the relation has
         return t
     if op in ("mat", "xfer", "tag", "proc", "cust"):
@@ -624,7 +624,7 @@ def pyeval(node, leafrows, bind, tags, prefer="l"):
     """Evaluate a program over concrete leaf rows (dict colname -> int) with ordinary Python."""
     op = node[0]
     if op == "leaf":
-        if node[1] in DECLARED_COLS:
+        if node[1] in DECLARED_COLS and all(set(r) > set(DECLARED_COLS[node[1]]) for r in leafrows[node[1]]):
             return [{c: r[c] for c in DECLARED_COLS[node[1]]} for r in leafrows[node[1]]]
         return [dict(r) for r in leafrows[node[1]]]
     if op in ("mat", "xfer", "tag", "proc", "cust"):
